@@ -127,6 +127,7 @@ class Interp:
         self.cur_dest_ty = None
         self.cur_state = None
         self.summaries = None
+        self.bitcanon = False     # summarised callees take their arguments in bit-level canonical form (bitform.py)
         self.fork_log = None
         import models
         models.install(self)
@@ -1752,6 +1753,24 @@ class Interp:
         ts = []
         spec = self.summaries[name]
         deep = isinstance(spec, tuple)        # ('deep', tag): pointer arguments stand for the *contents* they point to
+        canon = (lambda t: t)
+        if getattr(self, 'bitcanon', False):
+            import bitform
+            canon = bitform.recanon
+        if deep and spec[0] == 'inplace':
+            # fn(state: &mut [W; N] / &mut [W]) -> (): the words are replaced by the outputs of a multi-output opaque
+            # function of the words (arguments in bit-level canonical form, see bitform.py)
+            pty = self.m.fn(callee['inst'])['mir']['locals'][1]
+            loc = self.deref(args[0], self.types[pty]['t'], st)
+            v = self.read(st, loc)
+            if not isinstance(v, Arr) or not all(isinstance(e, AInt) for e in v.e):
+                raise Unsupported('in-place summary of %s on %r' % (name, v))
+            leaves = []
+            _leaf_terms(v, leaves)
+            leaves = [canon(x) for x in leaves]
+            outs = T.tuple_fn(('pw:' if spec[0] == 'inplace' and len(spec) > 2 and spec[2] == 'pw' else 'fn:') + spec[1], [e.w for e in v.e], leaves)
+            self.write(st, loc, Arr(v.ty, [topint(e.w, e.signed, o) for e, o in zip(v.e, outs)]))
+            return UNIT
         for ai, a in enumerate(args):
             if isinstance(a, AInt):
                 ts.append(a.term if a.term is not None else (T.const(a.w, a.const) if a.const is not None else None))
@@ -1772,10 +1791,13 @@ class Interp:
         ii = self.int_info(rt)
         okts = all(t is not None for t in ts)
         v = self.top(rt)
-        sname = 'fn:' + (spec[1] if deep else spec)
+        sname = ('pw:' if deep and len(spec) > 2 and spec[2] == 'pw' else 'fn:') + (spec[1] if deep else spec)
         if isinstance(v, AInt):
             return v.with_term(T.op(sname, ii[0], *ts) if okts else None)
         if isinstance(v, Arr) and okts:
+            if deep and all(isinstance(e, AInt) for e in v.e):
+                outs = T.tuple_fn(sname, [e.w for e in v.e], [canon(x) for x in ts])
+                return Arr(v.ty, [e.with_term(o) for e, o in zip(v.e, outs)])
             return Arr(v.ty, [e.with_term(T.op('%s#%d' % (sname, i), e.w, *ts)) if isinstance(e, AInt) else e
                               for i, e in enumerate(v.e)])
         return v
